@@ -192,11 +192,22 @@ C08Image(H, E, c, S) ==
                                           d == {j \in 1..n : want[j] # S.stim.flat[j]} IN
                                       IF d = {} THEN n + 1 ELSE MinOf(d), "exported", Len(S.stim.flat), "expected", Len(want)>>))
 
+\* --------------------------------------------------------------------- C15
+C15Image(H, E, c, S) ==
+  IF S.openql.status = "none" THEN {}
+  ELSE IF S.openql.status = "duplicate-kernel" THEN {Fail("C15.duplicate_kernel", c, "export refused: duplicate kernel name")}
+  ELSE IF S.openql.status # "ok" THEN {Fail("C15.export_error", c, S.openql.status)}
+  ELSE LET want == OpenQLImage(H, E, S, c)  got == S.openql.flat IN
+       When(got = want,
+            Fail(IF got = DevSubFirst(H, E, S, c) THEN "C15.image.subprograms_first" ELSE "C15.image", c,
+                 <<"exported", Len(got), "expected", Len(want)>>))
+       \cup When(S.openql.same_twice, Fail("C15.names", c, "two exports of the same circuit differ"))
+
 \* ------------------------------------------------- the battery for one observation
 ObsClauses(H, E, c, S, flags) ==
   C02Complete(H, c, S) \cup C02Stable(c, S) \cup C02Contig(H, c, S) \cup C02Causal(H, c, S) \cup C02CausalReported(H, c, S)
   \cup C01Eq(H, c, S) \cup C01Dur(H, E, c, S) \cup C04Span(H, c, S) \cup C04Followers(H, c, S) \cup C03Memo(S)
-  \cup C08Image(H, E, c, S)
+  \cup C08Image(H, E, c, S) \cup C15Image(H, E, c, S)
   \cup (IF flags.applied THEN C07Indices(c, S) \cup C07Filters(c, S) \cup C06Reset(c, S) ELSE {})
   \cup (IF flags.applied /\ flags.implicit THEN C07Monotone(c, S) ELSE {})
 
@@ -221,7 +232,7 @@ SpecSnapshot(H, E, c) ==
   LET order == LeavesOf(H, c)
       meas(i) == H[i].kind = "DispersiveMeasure"
       mseq == SelectSeq(order, meas) IN
-  [top |-> c, order |-> order, order2 |-> order, by_q |-> <<>>, by_tag |-> <<>>, stim_m |-> [status |-> "none", targets |-> <<>>], stim |-> [status |-> "none", flat |-> <<>>],
+  [top |-> c, order |-> order, order2 |-> order, by_q |-> <<>>, by_tag |-> <<>>, stim_m |-> [status |-> "none", targets |-> <<>>], stim |-> [status |-> "none", flat |-> <<>>], openql |-> [status |-> "none", flat |-> <<>>, names |-> <<>>, same_twice |-> TRUE],
    leaves |-> [i \in Range(order) |->
       [kind |-> H[i].kind, qs |-> H[i].qs, chans |-> H[i].chans, dur |-> H[i].dur, tag |-> H[i].tag, pos |-> IndexIn(order, i), home |-> H[i].home, rlink |-> H[i].link,
        start |-> StartOf(H, E, i), dur_v |-> DurOf(H, E, i), end |-> EndOf(H, E, i), start_c |-> StartOf(H, E, i),
